@@ -616,7 +616,7 @@ def c_elstub_getitem2(interp, st, args, kw):
     return VObj("IsoStub2", {"el": args[0], "A": args[1], "ion": VObj("IonSetStub", {"of": ("iso", args[0].attrs["Z"], args[1])})})
 
 
-def c_ionset_getitem(interp, st, args, kw):
+def c_ionstub2_getitem(interp, st, args, kw):
     return VObj("IonStub2", {"of": args[0].attrs["of"], "q": args[1]})
 
 
@@ -658,5 +658,5 @@ def _mk_post(st, interp, C, res):
 
 U_MAKE = [Unit("_make_%s" % k, CORE + "._make_" + k, _mk_inputs(k), _mk_post,
                contracts={CORE + "._get_table": c_get_table_rec, "TableStub2.__getitem__": c_tablestub_getitem,
-                          "ElStub2.__getitem__": c_elstub_getitem2, "IonSetStub.__getitem__": c_ionset_getitem},
+                          "ElStub2.__getitem__": c_elstub_getitem2, "IonSetStub.__getitem__": c_ionstub2_getitem},
                replay={"module": "c08", "task": "replay"}) for k in ("element", "isotope", "ion", "isotope_ion")]
